@@ -326,17 +326,36 @@ theorem cleanOpId_ne_nil (id m p : Str) (h : id ≠ []) : cleanOpId id m p ≠ [
     | exact h
     | (rename_i hpre; intro h0; exact hpre (by rw [h0]; rfl))
 
-theorem chooseOpId_eq_nil_iff (s : Naming) (mu path : Str) (d : Option Str) (h : mu ∈ httpMethods) :
-    chooseOpId s mu path d = [] ↔ s ≠ .path ∧ d = some [] := by
+theorem declaredId_some {d : Option Str} {id : Str} (h : declaredId d = some id) : d = some id ∧ id ≠ [] := by
+  cases d with
+  | none => cases h
+  | some x =>
+    simp only [declaredId] at h
+    split at h
+    · cases h
+    · rename_i hx
+      cases h
+      exact ⟨rfl, by simpa using hx⟩
+
+theorem declaredId_of_ne_nil {id : Str} (h : id ≠ []) : declaredId (some id) = some id := by
+  cases id with
+  | nil => exact absurd rfl h
+  | cons c cs => rfl
+
+/-- F44 repaired: the id handed to the response parser is never empty (an empty declared id is replaced by the derived one, the
+    cleaner keeps a non-empty id non-empty, a derived id has an ASCII alphanumeric). -/
+theorem chooseOpId_ne_nil (s : Naming) (mu path : Str) (d : Option Str) (h : mu ∈ httpMethods) :
+    chooseOpId s mu path d ≠ [] := by
   have hd := deriveOpIdU_ne_nil mu path h
-  cases s <;> cases d with
-  | none => simp [chooseOpId, hd]
+  unfold chooseOpId
+  cases hdi : declaredId d with
+  | none => cases s <;> exact hd
   | some id =>
-    simp only [chooseOpId, ne_eq, reduceCtorEq, not_false_eq_true, not_true_eq_false, true_and, false_and,
-      Option.some.injEq, hd]
-    try (by_cases hid : id = []
-         · subst hid; simp [cleanOpId_nil]
-         · simp [hid, cleanOpId_ne_nil _ _ _ hid])
+    obtain ⟨_, hne⟩ := declaredId_some hdi
+    cases s
+    · exact hne
+    · exact cleanOpId_ne_nil _ _ _ hne
+    · exact hd
 
 theorem respError_ne_none_iff (opId : Str) (ks : List StatusKey) :
     respError opId ks ≠ none ↔ ks.any StatusKey.isBad = true ∨ (opId = [] ∧ ks ≠ []) := by
@@ -358,14 +377,11 @@ theorem respError_ne_none_iff (opId : Str) (ks : List StatusKey) :
       | nil => exact absurd rfl hk
       | cons k rest => cases k <;> simp [respError]
 
-/-- EXACTLY the operations that are dropped: a recognised method key whose node makes the parser raise,
-    or has a non-string status key, or declares the empty operationId together with at least one response
-    (unless the PATH strategy ignores the declared id). -/
+/-- EXACTLY the operations that are dropped: a recognised method key whose node makes the parser raise, or has a status key
+    that is neither a string nor an integer.  (F44 repaired: the empty operationId no longer is a reason.) -/
 theorem opRaises_iff (u : UInfo) (s : Naming) (path key : Str) (op : RawOp) :
     opRaises u s path key op = true ↔
-      recognised u key = true ∧
-        (op.parseRaises = true ∨ hasBadKey op = true ∨
-          (s ≠ .path ∧ op.operationId = some [] ∧ op.responses ≠ [])) := by
+      recognised u key = true ∧ (op.parseRaises = true ∨ hasBadKey op = true) := by
   unfold opRaises
   cases hr : recognised u key with
   | false => simp [parseOne_of_not_recognised u s path key op hr]
@@ -375,19 +391,59 @@ theorem opRaises_iff (u : UInfo) (s : Naming) (path key : Str) (op : RawOp) :
     by_cases hx : op.parseRaises = true
     · simp [hx]
     · have hre := respError_ne_none_iff (chooseOpId s (u.upperS key) path op.operationId) op.responses
-      rw [chooseOpId_eq_nil_iff s _ path _ hmem] at hre
+      have hne := chooseOpId_ne_nil s _ path op.operationId hmem
       simp only [hx, Bool.false_eq_true, if_false, true_and, false_or, hasBadKey]
       cases hc : respError (chooseOpId s (u.upperS key) path op.operationId) op.responses with
       | none =>
         simp only [hc, ne_eq, not_true_eq_false, false_iff, not_or] at hre
-        simp only [Bool.false_eq_true, false_iff, not_or]
-        exact ⟨hre.1, fun h => hre.2 ⟨⟨h.1, h.2.1⟩, h.2.2⟩⟩
+        simp only [Bool.false_eq_true, false_iff]
+        exact hre.1
       | some r =>
         simp only [hc, ne_eq, reduceCtorEq, not_false_eq_true, true_iff] at hre
         simp only [true_iff]
         rcases hre with h | h
-        · exact Or.inl h
-        · exact Or.inr ⟨h.1.1, h.1.2, h.2⟩
+        · exact h
+        · exact absurd h.1 hne
+
+theorem respError_emptyOpId (opId : Str) (ks : List StatusKey) (h : respError opId ks = some .emptyOpId) : opId = [] := by
+  induction ks with
+  | nil => cases h
+  | cons k rest ih =>
+    cases k with
+    | badKey r => simp [respError] at h
+    | strKey t =>
+      simp only [respError] at h
+      split at h
+      · rename_i he; simpa using he
+      · exact ih h
+    | intKey i =>
+      simp only [respError] at h
+      split at h
+      · rename_i he; simpa using he
+      · exact ih h
+
+/-- The `ValueError("operation_id_for_promo must be provided")` of the response parser is unreachable from the operations
+    parser: no warning carries that reason. -/
+theorem parseOne_never_emptyOpId (u : UInfo) (s : Naming) (path key : Str) (op : RawOp) (w : OpWarning)
+    (h : parseOne u s path key op = .dropped w) : w.reason ≠ .emptyOpId := by
+  cases hr : recognised u key with
+  | false => rw [parseOne_of_not_recognised u s path key op hr] at h; cases h
+  | true =>
+    rw [parseOne_of_recognised u s path key op hr] at h
+    have hne := chooseOpId_ne_nil s _ path op.operationId (recognised_mem u key hr)
+    by_cases hx : op.parseRaises = true
+    · simp only [hx, if_true] at h
+      cases h; simp
+    · simp only [hx, Bool.false_eq_true, if_false] at h
+      cases hc : respError (chooseOpId s (u.upperS key) path op.operationId) op.responses with
+      | none => rw [hc] at h; cases h
+      | some r =>
+        rw [hc] at h
+        cases h
+        intro he
+        simp only at he
+        subst he
+        exact hne (respError_emptyOpId _ _ hc)
 
 /-! ### The de-duplication passes -/
 
